@@ -65,6 +65,36 @@ def run(ctx):
     rule_c(ctx)
     rule_d(ctx)
     rule_e(ctx)
+    rule_g(ctx)
+
+
+def rule_g(ctx):
+    """every entry handed to the per-entry closure comes from a producer restricted by the `matcher` parameter
+    (the sparse patterns / the requested subset): the update never touches a path outside it"""
+    F = ctx.F
+    PROD = "re:^jj_lib::merged_tree::MergedTree::(diff_stream|conflicts|entries)"
+    found = 0
+    for b in F.family_bodies(UPDATE):
+        inv = [c for c in b.calls if not c.cleanup and c.decl in ("std::ops::AsyncFnMut::async_call_mut",
+               "std::ops::FnMut::call_mut", "std::ops::AsyncFn::async_call", "std::ops::Fn::call")
+               and (c.res or "").startswith(UPDATE + "::")]
+        if not inv:
+            continue
+        ctx.fn_seen(b.id)
+        sl = F.slicer(b.id, with_mutators=True)
+        for i, c in enumerate(inv):
+            found += 1
+            t = sl.call_arg(c, 1)
+            prods = [x for x in term_calls(t) if name_matches(x[1], PROD)]
+            bad = [x for x in prods if not any(l[0] == "param" and l[2] == "matcher" for a in x[2][1:] for l in
+                                               __import__("jjv.lib", fromlist=["term_leaves"]).term_leaves(a))]
+            ok = bool(prods) and not bad
+            ctx.ob("C25.g/entries-restricted-by-matcher", f"{UPDATE}|entry-source#{i}", ok,
+                   f"entries come from {sorted({x[1].split('::')[-1] for x in prods})}(.., matcher)" if ok else
+                   f"paths processed by the update come from {[x[1].split('::')[-1] for x in (bad or prods)]} which is not "
+                   f"restricted by the matcher: files outside the sparse patterns can be removed/overwritten",
+                   where=c.where())
+    ctx.anchor("C25.g", "invocations of the per-entry closure", found, 2)
 
 
 def cone(ctx):
@@ -200,6 +230,32 @@ def rule_c(ctx):
             ctx.ob("C25.c/disk-path-validated", f"{UPDATE}|{w.res or w.decl}#{W.index(w)}", ok,
                    "disk path derives from to_fs_path / create_parent_dirs" if ok else
                    f"disk path is not built by the validating converters: {show(t)[:200]}", where=w.where())
+    # a disk path taken straight from to_fs_path(full path) is only allowed when all parents were created (and hence
+    # checked without following symlinks) earlier in this same update: the is_root() edge of the remainder after
+    # split_common_prefix(prev_created_path)
+    for b in bs:
+        sl2 = F.slicer(b.id, cross_closure=False)
+        direct = []
+        for c in b.calls_to("jj_lib::repo_path::RepoPath::to_fs_path"):
+            # does the result feed create_parent_dirs (fine) or become the disk path itself?
+            feeds_cpd = any(any(x[3] and x[3][0] == b.id and x[3][1] == c.bb for x in term_calls(sl2.call_arg(k, 0)))
+                            for k in b.calls_to(LW + "create_parent_dirs"))
+            if not feeds_cpd:
+                direct.append(c)
+        for c in direct:
+            guards = set()
+            for r in b.calls:
+                if r.cleanup or (r.res or "") != "jj_lib::repo_path::RepoPath::is_root":
+                    continue
+                t = sl2.call_arg(r, 0)
+                if any(x[1] == "jj_lib::repo_path::RepoPath::split_common_prefix" for x in term_calls(t)):
+                    guards |= set(bool_edges(F, b, r)[0])
+            ok = bool(guards) and b.set_dominated(c.bb, guards)
+            ctx.ob("C25.c/unchecked-parents-only-when-already-created", f"{UPDATE}|to_fs_path", ok,
+                   "to_fs_path(full path) is used as the disk path only on the `remainder.is_root()` edge (parents "
+                   "created earlier in this update)" if ok else
+                   "a disk path is built with to_fs_path without create_parent_dirs: parent components are not "
+                   "checked for symlinks", where=c.where())
     # create_parent_dirs: skip (None) when an existing parent is not a directory, decided by symlink_metadata
     cp = LW + "create_parent_dirs"
     for b in F.family_bodies(cp):
